@@ -66,6 +66,28 @@ fn main() {
         tuiworld::remove_fixture();
         std::process::exit(0);
     }
+    if argv.get(1).map(String::as_str) == Some("cli-ids") {
+        // the trace identifiers the command line gives to sibling tracers (used by C03): the real
+        // `start_tracers` is run for n loopback targets; an out-of-range packet size makes every
+        // spawned tracer thread stop in `Channel::connect` before it opens a probe socket
+        use clap::Parser;
+        let pid: u16 = argv.get(2).and_then(|x| x.parse().ok()).expect("MACHINERY: cli-ids <pid> <n>");
+        let n: usize = argv.get(3).and_then(|x| x.parse().ok()).expect("MACHINERY: cli-ids <pid> <n>");
+        let line = ["trip", "127.0.0.1", "-A", "127.0.0.1"];
+        let args = trippy_tui::verif::Args::try_parse_from(line).expect("MACHINERY: CLI rejected the cli-ids command line");
+        let mut cfg = trippy_tui::verif::config_from_str(args, "", true, false, pid).expect("MACHINERY: config rejected");
+        cfg.packet_size = 2000;
+        let addrs: Vec<std::net::IpAddr> = (0..n).map(|i| std::net::IpAddr::V4(std::net::Ipv4Addr::new(127, 0, 0, 1 + i as u8))).collect();
+        match vcore::mc::catch(|| trippy_tui::verif::start_tracers(&cfg, &addrs, pid)) {
+            Ok(Ok(traces)) => {
+                let ids: Vec<String> = traces.iter().map(|t| t.data.trace_identifier().0.to_string()).collect();
+                println!("CLI-IDS {}", ids.join(" "));
+            }
+            Ok(Err(e)) => println!("CLI-IDS-ERROR {e}"),
+            Err(p) => println!("CLI-IDS-PANIC {} at {}:{}", p.message, p.file, p.line),
+        }
+        std::process::exit(0);
+    }
     if argv.len() < 2 {
         eprintln!("usage: vtui <C16|C17|C18> [--tier quick|thorough] [--replay file]");
         std::process::exit(2);
